@@ -19,7 +19,7 @@ func (e *env) bgvCt(tag string, level int) *rlwe.Ciphertext {
 	pt := bgv.NewPlaintext(e.bgvP, level)
 	v := make([]uint64, e.bgvP.MaxSlots())
 	for i := range v {
-		v[i] = uint64(3*i+len(tag)+1) % 97
+		v[i] = uint64(3*i+len(tag)+1) % e.bgvP.PlaintextModulus()
 	}
 	if err := ecd.Encode(v, pt); err != nil {
 		panic(err)
